@@ -37,6 +37,13 @@ def gen(rng, tier):
                         col["values"][r] = None
             kind = "unused-missing"
         cases.append({"formula": f, "frame": fr, "na": "drop", "chain": chain, "kind": kind})
+    for _ in range(100 if tier == "thorough" else 12):
+        fr = gen_dm.make_frame(rng)
+        for col in fr["columns"]:
+            if col["name"] in ("f", "g"):
+                col["values"] = [{"a": "ctl", "b": "ctl ", "p": " lo", "q": "lo"}.get(v, v) for v in col["values"]]
+        f = "y ~ " + rng.choice(["f", "0 + f", "f:x", "x + (1 | g)", "g + (x | f)", "0 + f:g", "S(f)", "C(g, Treatment)"])
+        cases.append({"formula": f, "frame": fr, "na": "drop", "chain": [], "kind": "padded-level"})
     # a level that is literally named 'mean' next to the [mean] column of a full-rank Sum coding
     for _ in range(200 if tier == "thorough" else 20):
         fr = gen_dm.make_frame(rng)
